@@ -252,6 +252,7 @@ impl Run {
         let st = AtomicU64::new(0);
         let tr = AtomicU64::new(0);
         let nt = AtomicU64::new(0);
+        let nfail = AtomicU64::new(0);
         let harness_panic: Mutex<Option<String>> = Mutex::new(None);
         if spec.n == 0 {
             self.machinery_error(format!("driver {} has an empty case space", spec.name));
@@ -306,6 +307,7 @@ impl Run {
                     Ok(Err(b)) => {
                         st.fetch_add(1, Relaxed);
                         tr.fetch_add(1, Relaxed);
+                        nfail.fetch_add(1, Relaxed);
                         self.record_fail(spec.name, i, b, || d(i));
                     }
                     Err(p) => {
@@ -336,7 +338,8 @@ impl Run {
         if !complete && !self.capped.load(Relaxed) && self.machinery.lock().unwrap().is_empty() {
             self.machinery_error(format!("driver {}: {} of {} cases executed", spec.name, states, spec.n));
         }
-        if complete {
+        // failing cases are not classified, so an empty class proves nothing once a case of this driver failed
+        if complete && nfail.load(Relaxed) == 0 {
             for rq in spec.required {
                 let k = spec.classes.iter().position(|c| c == rq).expect("required class is listed");
                 if cls[k].load(Relaxed) == 0 {
@@ -710,6 +713,12 @@ impl Run {
         if let Err(e) = std::fs::write(&path, serde_json::to_string_pretty(&ev).unwrap()) {
             eprintln!("MACHINERY: cannot write {}: {}", path, e);
             return 2;
+        }
+        if self.tier == Tier::Thorough {
+            // keep the last thorough result next to the per-change (quick) evidence, for reference
+            let d2 = format!("{}/evidence-thorough", self.verif_root);
+            let _ = std::fs::create_dir_all(&d2);
+            let _ = std::fs::write(format!("{}/{}.json", d2, self.prop), serde_json::to_string_pretty(&ev).unwrap());
         }
         for l in &lines {
             println!("{}", l);
